@@ -15,7 +15,6 @@ import (
 
 	admintypes "github.com/Sifchain/sifnode/x/admin/types"
 	clptypes "github.com/Sifchain/sifnode/x/clp/types"
-	marginkeeper "github.com/Sifchain/sifnode/x/margin/keeper"
 	margintypes "github.com/Sifchain/sifnode/x/margin/types"
 	sdk "github.com/cosmos/cosmos-sdk/types"
 )
@@ -60,6 +59,7 @@ type hist struct {
 	height     int64
 	cross      bool // a position between two non-native assets (or the same asset twice) was accepted
 	fixedPools bool // directed history: pools of 10^24 native and 2.5 * 10^24 external
+	evenPools  bool // directed history: pools of 10^24 on both sides
 }
 
 func (h *hist) dumpParts(ctx sdk.Context) (string, string, string, string) {
@@ -202,6 +202,9 @@ func (h *hist) setup() {
 		if h.fixedPools {
 			nat = pow10(24)
 			ext = new(big.Int).Mul(pow10(23), big.NewInt(25))
+		}
+		if h.evenPools {
+			nat, ext = pow10(24), pow10(24)
 		}
 		r := w.Tx(func(ctx sdk.Context) error {
 			_, err := w.csrv.CreatePool(sdk.WrapSDKContext(ctx), &clptypes.MsgCreatePool{Signer: h.lp.String(), ExternalAsset: &clptypes.Asset{Symbol: d},
@@ -748,6 +751,26 @@ func (h *hist) directed(kind int) {
 			for !h.opBlock() {
 			}
 		}
+	case 9: // two positions of opposite direction in one pool at an epoch boundary: the earlier one (address order)
+		// large and deep under water, the later one small, 15x, just below the safety factor against the pool as
+		// it stands before the hook but above it once the earlier one's custody is back in the pool when its turn
+		// comes — the hook must keep it
+		p.LeverageMax = sdk.NewDec(20)
+		p.EpochLength = 4
+		h.setParams(&p)
+		for !h.opBlock() {
+		}
+		e22 := pow10(22)
+		h.doOpen(h.traders[0], "rowan", "cusdc", new(big.Int).Quo(new(big.Int).Mul(e22, big.NewInt(5)), big.NewInt(2)), margintypes.Position_LONG, sdk.NewDec(2))
+		h.opBlock()
+		h.doSwap("cusdc", "rowan", new(big.Int).Mul(e22, big.NewInt(45)))
+		h.opBlock()
+		h.doOpen(h.traders[1], "cusdc", "rowan", pow10(20), margintypes.Position_LONG, sdk.NewDec(15))
+		h.doSwap("rowan", "cusdc", new(big.Int).Quo(new(big.Int).Mul(e22, big.NewInt(3)), big.NewInt(2)))
+		for !h.opBlock() {
+		}
+		for !h.opBlock() {
+		}
 	case 5: // every pool at once: positions on both sides of every pool, two epoch boundaries, everything closed
 		// again — a lookup of "the positions of pool X" that also returns those of a pool whose symbol
 		// merely starts with X (or of X + the start of an address) shows here as custody moved on the wrong pool
@@ -770,10 +793,66 @@ func (h *hist) directed(kind int) {
 	h.out.Hist[fmt.Sprintf("directed.%d", kind)]++
 }
 
-// next block: margin BeginBlocker.  At an epoch boundary the loop of BeginBlocker is first replayed
-// on a discarded branch, one BeginBlockerProcessMTP call at a time, to observe the health the hook
-// computes for each position and whether the position then vanished; the branch must end in the
-// same state as the real BeginBlocker (else the correspondence is reported broken).
+// forcedByHook finds, through the module's own entry point only (Keeper.BeginBlocker on discarded
+// branches of the live state), which positions the coming epoch hook removes and what health each of
+// them has *when its turn comes*: the hook is run on a branch from which that position and every
+// later position of its pool (store order = address, id) have been taken out with DestroyMTP — the
+// pool record is left as it is, so the earlier positions are processed exactly as in the full run —
+// and the position is then valued with UpdateMTPHealth in the pool record that run leaves behind.
+func (h *hist) forcedByHook() []struct{ health, tag string } {
+	w := h.w
+	k := w.app.MarginKeeper
+	var out []struct{ health, tag string }
+	before := k.GetAllMTPS(w.ctx)
+	if len(before) == 0 {
+		return nil
+	}
+	full, _ := w.ctx.CacheContext()
+	if protect(func() string { k.BeginBlocker(full); return "ok" }) != "ok" {
+		return nil
+	}
+	poolOf := func(m *margintypes.MTP) string {
+		if m.CollateralAsset == "rowan" {
+			return m.CustodyAsset
+		}
+		return m.CollateralAsset
+	}
+	for i, m := range before {
+		if _, err := k.GetMTP(full, m.Address, m.Id); err == nil {
+			continue // still stored after the hook
+		}
+		hs := "nohealth"
+		br, _ := w.ctx.CacheContext()
+		r := protect(func() string {
+			for _, later := range before[i:] {
+				if poolOf(later) == poolOf(m) {
+					if err := k.DestroyMTP(br, later.Address, later.Id); err != nil {
+						return "err"
+					}
+				}
+			}
+			k.BeginBlocker(br)
+			pool, err := w.app.ClpKeeper.GetPool(br, poolOf(m))
+			if err != nil {
+				return "err"
+			}
+			hh, err := k.UpdateMTPHealth(br, *m, pool)
+			if err != nil {
+				return "err"
+			}
+			return decS(hh)
+		})
+		if r != "err" && r != "panic" {
+			hs = r
+		}
+		out = append(out, struct{ health, tag string }{hs, "bb.forced" + h.shape()})
+	}
+	return out
+}
+
+// next block: margin BeginBlocker (Keeper.BeginBlocker, the module's entry point; no internal helper of
+// the hook is called).  At an epoch boundary the positions the hook is about to remove, and the health
+// each has when its turn comes, are observed first (forcedByHook).
 func (h *hist) opBlock() bool {
 	w := h.w
 	h.height++
@@ -781,55 +860,29 @@ func (h *hist) opBlock() bool {
 	h.out.Emit(fmt.Sprintf("height %d", h.height), "ok", "height", false)
 	k := w.app.MarginKeeper
 	p := k.GetParams(w.ctx)
-	boundary := marginkeeper.GetEpochPosition(w.ctx, p.EpochLength) == 0
+	epochLen := p.EpochLength
+	if epochLen <= 0 {
+		epochLen = 1
+	}
+	boundary := h.height%epochLen == 0
 	var rates []string
-	var replica string
-	type forced struct{ health, tag string }
-	var forcedList []forced
+	var forcedList []struct{ health, tag string }
 	if boundary {
-		bctx, _ := w.ctx.CacheContext()
-		ok := func() (ok bool) {
-			defer func() {
-				if r := recover(); r != nil {
-					ok = false
-				}
-			}()
-			for _, pool := range w.app.ClpKeeper.GetPools(bctx) {
-				pool.BlockInterestExternal = sdk.ZeroUint()
-				pool.BlockInterestNative = sdk.ZeroUint()
-				if k.IsPoolEnabled(bctx, pool.ExternalAsset.Symbol) {
-					rate, err := k.InterestRateComputation(bctx, *pool)
+		// environment value: the rate InterestRateComputation gives each enabled pool (read-only, on the state before the hook)
+		for _, pool := range w.app.ClpKeeper.GetPools(w.ctx) {
+			if k.IsPoolEnabled(w.ctx, pool.ExternalAsset.Symbol) {
+				if rs := protect(func() string {
+					rate, err := k.InterestRateComputation(w.ctx, *pool)
 					if err != nil {
-						continue
+						return ""
 					}
-					rates = append(rates, pool.ExternalAsset.Symbol+":"+decS(rate))
-					pool.InterestRate = rate
-					pool.LastHeightInterestRateComputed = bctx.BlockHeight()
-					_ = k.UpdatePoolHealth(bctx, pool)
-					k.TrackSQBeginBlock(bctx, pool)
-					mtps, _, _ := k.GetMTPsForPool(bctx, pool.ExternalAsset.Symbol, nil)
-					for _, mtp := range mtps {
-						hh, herr := k.UpdateMTPHealth(bctx, *mtp, *pool)
-						marginkeeper.BeginBlockerProcessMTP(bctx, k, mtp, pool)
-						if _, gerr := k.GetMTP(bctx, mtp.Address, mtp.Id); gerr != nil {
-							hs := "nohealth"
-							if herr == nil {
-								hs = decS(hh)
-							}
-							forcedList = append(forcedList, forced{hs, "bb.forced" + h.shape()})
-						}
-					}
+					return decS(rate)
+				}); rs != "" && rs != "panic" {
+					rates = append(rates, pool.ExternalAsset.Symbol+":"+rs)
 				}
-				_ = w.app.ClpKeeper.SetPool(bctx, pool)
 			}
-			return true
-		}()
-		if ok {
-			a, b, c, d := h.dumpParts(bctx)
-			replica = a + " " + b + " " + c + " " + d
-		} else {
-			replica = "panic"
 		}
+		forcedList = h.forcedByHook()
 	}
 	res := protect(func() string {
 		k.BeginBlocker(w.ctx)
@@ -838,15 +891,6 @@ func (h *hist) opBlock() bool {
 	h.out.Emit("bb "+commaS(rates), res, "bb."+b2s(boundary)+"."+res, boundary)
 	h.observe("bb")
 	if boundary {
-		a, b, c, d := h.dumpParts(w.ctx)
-		real := a + " " + b + " " + c + " " + d
-		if res != "ok" {
-			real = "panic"
-		}
-		// not a chk line: the harness's step-by-step replay of the hook must match the hook
-		if replica != real {
-			h.out.Emit("replica-differs", "replica:"+replica, "replica.differs", false)
-		}
 		sf := decS(k.GetParams(w.ctx).SafetyFactor)
 		for _, f := range forcedList {
 			if f.health == "nohealth" {
@@ -888,9 +932,9 @@ func init() {
 				perm[i], perm[j] = perm[j], perm[i]
 				w.denoms = append(w.denoms, perm[i])
 			}
-			h := &hist{w: w, out: out, rng: rng, fixedPools: nhist == 4}
+			h := &hist{w: w, out: out, rng: rng, fixedPools: nhist == 4, evenPools: nhist == 9}
 			h.setup()
-			if nhist < 9 {
+			if nhist < 10 {
 				h.directed(nhist)
 				nhist++
 				continue
